@@ -87,6 +87,58 @@ static CaseResult program_case(Tape &t, bool client)
 	return r;
 }
 
+// Datagrams whose LAST byte is the place where a decoder is tempted to look one byte further: the first byte of a
+// compression pointer, a label length byte, a label cut short -- with every length field before it consistent, so that
+// decoding really gets there.  Query mode: the question name is a pointer to label data placed after QTYPE/QCLASS
+// (the fixed fields must be present for the message to be accepted at all).  Answer mode: the name is the record data
+// of the last record (CNAME / MX / SRV), RDLENGTH exact.
+static Bytes boundary_datagram(Tape &t, bool answer, const std::string &domain, mal::Stats &ms)
+{
+	Bytes m;
+	auto labels = [&](int n, bool prefixed) {
+		for (int k = 0; k < n; k++) {
+			size_t l = 1 + t.below(t.chance(1, 4) ? 63 : 12);
+			m.push_back((uint8_t)l);
+			for (size_t i = 0; i < l; i++) m.push_back(prefixed && k == 0 && i == 0 ? (uint8_t)"hijkHtsuvrp0"[t.below(12)] : mal::label_byte(t, (int)t.pick({8, 2, 1})));
+		}
+	};
+	auto tail = [&]() {
+		labels((int)t.below(4), true);
+		switch (t.pick({4, 2, 2, 1})) {
+		case 0: m.push_back((uint8_t)(0xC0 | t.below(64))); ms.hit("boundary:pointer-first-byte-is-last-byte"); break;
+		case 1: m.push_back((uint8_t)(1 + t.below(63))); ms.hit("boundary:label-length-is-last-byte"); break;
+		case 2: { size_t l = 2 + t.below(62); m.push_back((uint8_t)l); size_t have = 1 + t.below((uint32_t)l - 1); for (size_t i = 0; i < have; i++) m.push_back(mal::label_byte(t, 0)); ms.hit("boundary:label-cut-short"); break; }
+		default: for (auto &l : refdns::split_labels(domain)) { m.push_back((uint8_t)l.size()); m.insert(m.end(), l.begin(), l.end()); } ms.hit("boundary:name-without-terminator"); break;
+		}
+	};
+	mal::put16(m, (uint16_t)t.below(65536));
+	static const uint16_t TY[] = {10, 65399, 16, 33, 15, 5, 1};
+	if (!answer) {
+		mal::put16(m, 0x0100); mal::put16(m, 1); mal::put16(m, 0); mal::put16(m, 0); mal::put16(m, 0);
+		// optional literal labels first, then the pointer
+		if (t.chance(1, 3)) labels(1 + (int)t.below(2), true);
+		size_t pp = m.size(); mal::put16(m, 0);
+		mal::put16(m, TY[t.below(7)]); mal::put16(m, 1);
+		size_t target = m.size(); m[pp] = (uint8_t)(0xC0 | (target >> 8)); m[pp + 1] = (uint8_t)target;
+		tail();
+	} else {
+		mal::put16(m, 0x8400); mal::put16(m, 1); mal::put16(m, 1); mal::put16(m, 0); mal::put16(m, 0);
+		static const char *NM[] = {"paaaaaaa.t.example.com", "0eabapdn.t.example.com", "yrb123.t.example.com"};
+		for (auto &l : refdns::split_labels(NM[t.below(3)])) { m.push_back((uint8_t)l.size()); m.insert(m.end(), l.begin(), l.end()); } m.push_back(0);
+		static const uint16_t RT[] = {5, 15, 33, 16};
+		uint16_t rt = RT[t.pick({4, 2, 2, 1})];
+		mal::put16(m, rt == 5 && t.chance(1, 3) ? 1 : rt); mal::put16(m, 1);
+		mal::put16(m, 0xC00C); mal::put16(m, rt); mal::put16(m, 1); mal::put32(m, 0);
+		size_t rl = m.size(); mal::put16(m, 0); size_t rs = m.size();
+		if (rt == 15) mal::put16(m, 10);
+		if (rt == 33) { mal::put16(m, 10); mal::put16(m, 10); mal::put16(m, 5060); }
+		if (rt == 16) { size_t n = 1 + t.below(255); m.push_back((uint8_t)n); size_t have = t.below((uint32_t)n); for (size_t i = 0; i < have; i++) m.push_back(i == 0 ? (uint8_t)"tsuvr"[t.below(5)] : mal::label_byte(t, 0)); ms.hit("boundary:txt-string-cut-short"); }
+		else tail();
+		size_t n = m.size() - rs; m[rl] = (uint8_t)(n >> 8); m[rl + 1] = (uint8_t)n;
+	}
+	return m;
+}
+
 static CaseResult decoder_case(Tape &t)
 {
 	CaseResult r;
@@ -96,8 +148,10 @@ static CaseResult decoder_case(Tape &t)
 	std::string domain = "t.example.com";
 	if (answer) { refproto::Query q; q.id = (uint16_t)t.below(65536); static const char *NM[] = {"paaaaaaa.t.example.com", "0eabapdn.t.example.com", "yrb123.t.example.com"}; q.name = NM[t.below(3)]; q.qtype = refproto::qtype_of(1 + (int)t.below(7)); D = mal::hostile_answer(t, q, ms); }
 	else { static const char CMD[] = "vlizsoyrnp0a"; D = mal::hostile_query(t, domain, t.chance(2, 3) ? CMD[t.below(sizeof CMD - 1)] : 0, ms); }
+	bool boundary = t.chance(1, 4);
+	if (boundary) { ms = mal::Stats(); D = boundary_datagram(t, answer, domain, ms); }
 	// additional cuts at every interesting place: the property names truncation inside an item
-	if (t.chance(1, 2) && D.size() > 13) { D.resize(12 + t.below((uint32_t)(D.size() - 12))); ms.hit("cut"); }
+	if (!boundary && t.chance(1, 2) && D.size() > 13) { D.resize(12 + t.below((uint32_t)(D.size() - 12))); ms.hit("cut"); }
 	if (D.size() > 60000) D.resize(60000);
 	dif::CaseOpt o2; std::string desc; gen_residue(t, o2, domain, answer, desc);
 	size_t buflen = t.chance(1, 2) ? 4096 : 65536;
@@ -124,7 +178,7 @@ static CaseResult decoder_case(Tape &t)
 	else if (accepted && (res[0].type != res[1].type || res[0].id != res[1].id)) why = "decoded type / id differ";
 	else if (accepted && res[0].out != res[1].out) why = "decoded payload differs: " + hexs(res[0].out, 40) + " vs " + hexs(res[1].out, 40);
 	if (!why.empty()) r.fail(answer ? "C12:decode-answer-depends-on-residue" : "C12:decode-query-depends-on-residue", "dns_decode() interpreted the same datagram differently depending on the bytes after it: " + why + "\n" + r.render);
-	bool shape = false; for (auto &kv : ms.kinds) { r.cls(kv.first); if (kv.first == "cut" || kv.first.find("truncated") != std::string::npos || kv.first.find("past-end") != std::string::npos || kv.first.find("rdlength-lies") != std::string::npos || kv.first.find("overruns") != std::string::npos || kv.first.find("unterminated") != std::string::npos || kv.first.find("pointer") != std::string::npos) shape = true; }
+	bool shape = false; for (auto &kv : ms.kinds) { r.cls(kv.first); if (kv.first == "cut" || kv.first.find("truncated") != std::string::npos || kv.first.find("past-end") != std::string::npos || kv.first.find("rdlength-lies") != std::string::npos || kv.first.find("overruns") != std::string::npos || kv.first.find("unterminated") != std::string::npos || kv.first.find("pointer") != std::string::npos || kv.first.find("boundary:") == 0) shape = true; }
 	r.nontrivial = shape;
 	r.cls(answer ? "layer1:answer" : "layer1:query");
 	return r;
